@@ -30,6 +30,7 @@
 #include <stdio.h>
 #include <stdarg.h>
 #include <string.h>
+#include <limits.h>
 #include <errno.h>
 
 #ifdef HAVE_LIBBZ2
@@ -425,26 +426,25 @@ struct EGioFile_st {int type; void*file;};
 /* ========================================================================= */
 int EGioWrite(EGioFile_t*file,const char*const string)
 {
-	char buf[EGio_BUFSIZE];
-	int len;
-	buf[EGio_BUFSIZE-1] = 0;
-	snprintf(buf,EGio_BUFSIZE,"%s",string);
-	len = strlen(buf);
-	if(len<=0 || len >= EGio_BUFSIZE || buf[EGio_BUFSIZE-1]!=0) return 0;
+	/* the text goes to the stream as it is: it used to be copied through a
+	 * buffer of EGio_BUFSIZE bytes first, which silently cut longer lines */
+	const size_t slen = strlen(string);
+	const int len = (int)slen;
+	if(slen == 0 || slen > (size_t)INT_MAX) return 0;
 	switch(file->type)
 	{
 		case EGIO_PLAIN:
-			return fwrite(buf, (size_t)1, (size_t)len, (FILE*)(file->file));
+			return fwrite(string, (size_t)1, slen, (FILE*)(file->file));
 		case EGIO_ZLIB:
 #ifdef HAVE_LIBZ
-			return gzwrite((gzFile)(file->file),buf,(unsigned)len);
+			return gzwrite((gzFile)(file->file),string,(unsigned)len);
 #else
 			QSlog("no zlib support");
 			return 0;
 #endif
 		case EGIO_BZLIB:
 #ifdef HAVE_LIBBZ2
-			return BZ2_bzwrite((BZFILE*)(file->file),buf,len);
+			return BZ2_bzwrite((BZFILE*)(file->file),(void*)string,len);
 #else
 			QSlog("no bzip2 support");
 			return 0;
@@ -458,12 +458,36 @@ int EGioWrite(EGioFile_t*file,const char*const string)
 int EGioPrintf(EGioFile_t*file,const char* format, ...)
 {
 	char buf[EGio_BUFSIZE];
-	va_list va;
-	buf[EGio_BUFSIZE-1]=0;
+	char *big = 0;
+	va_list va, va2;
+	int n, rval;
 	va_start(va,format);
-	vsnprintf(buf,EGio_BUFSIZE,format,va);
+	va_copy(va2,va);
+	n = vsnprintf(buf,EGio_BUFSIZE,format,va);
 	va_end(va);
-	return EGioWrite(file,buf);
+	if(n < 0)
+	{
+		va_end(va2);
+		return 0;
+	}
+	if(n < EGio_BUFSIZE)
+	{
+		va_end(va2);
+		return EGioWrite(file,buf);
+	}
+	/* the text does not fit the stack buffer (an exact rational has no length
+	 * limit): format it again into a block of the length it needs */
+	big = (char*)malloc((size_t)n + 1);
+	if(!big)
+	{
+		va_end(va2);
+		return 0;
+	}
+	vsnprintf(big,(size_t)n + 1,format,va2);
+	va_end(va2);
+	rval = EGioWrite(file,big);
+	free(big);
+	return rval;
 }
 /* ========================================================================= */
 EGioFile_t* EGioOpenFILE(FILE*ifile)
